@@ -187,6 +187,26 @@ func waitForDRA(c cache.Cache, cfg *Cfg) error {
 	return fmt.Errorf("the DRA manager never saw the scenario's objects: %s", last)
 }
 
+// freeDevices is the number of DRA devices of the node that the session's DRA manager does not count as allocated
+// (what the DRA filter of the fit check would find); -1 = the node publishes no DRA devices.
+func freeDevices(cfg *Cfg, ssn *framework.Session, node string) (int, error) {
+	n := cfg.Nodes[node]
+	if n.Dra == 0 {
+		return -1, nil
+	}
+	devs, err := ssn.InternalK8sPlugins().FrameworkHandle.SharedDRAManager().ResourceClaims().ListAllAllocatedDevices()
+	if err != nil {
+		return 0, err
+	}
+	used := 0
+	for id := range devs {
+		if id.Pool.String() == node {
+			used++
+		}
+	}
+	return n.Dra - used, nil
+}
+
 // ---- projection ----------------------------------------------------------------------------------
 
 // selNode is the node an allocation is pinned to ("" = no selector, "?" = not a single-node selector)
